@@ -20,7 +20,7 @@ LEVEL_TEXT = ("Full-strength theorems over the ticker/device model for every wir
 LEVEL_ADDENDUM = 'Session 8: interrupts are swept over every loop step of a flat and a nested tick for components that take part in the tick but are passed over (an Input / Skip decision is never revised); one generated scenario in four also runs from a configuration FILE through read_configs / build_simulation (possibly divided over several simulations on one bus) / TickitSimulation.run().'
 LEVEL_NOTE = "Trusts: Lean kernel; hand-written ticker/device models (tied by acceptor and differential run); Python dict equality for change detection (values are ints in the runs)."
 ASSUMPTIONS = ["each input port has one source", "device outputs are mappings with hashable values compared by =="]
-MON = ("ticker", "change_detection", "device_order", "system_output")
+MON = ("ticker", "change_detection", "device_order", "system_output", "input_invokes")
 CORR = ("ticker", "sim")
 
 
